@@ -26,8 +26,9 @@ case "$V" in
   *) echo "unknown variant $V" >&2; exit 2;;
 esac
 FL="$FL -DYAEP_VERIF -w"
-# VERIF_YAEP_DEBUG=1: internal assertions of yaep.c on (the configuration the repository's own tests are compiled with)
-[ "${VERIF_YAEP_DEBUG:-0}" = 1 ] && [ "$V" != c-plain ] && FL="$FL -DYAEP_DEBUG"
+# internal assertions of yaep.c on (yaep.c defines NDEBUG itself unless YAEP_DEBUG is given; the repository's own test
+# programs are compiled with -DYAEP_DEBUG): a failing assertion is an abort of the library, i.e. a verdict of the checks
+[ "$V" != c-plain ] && FL="$FL -DYAEP_DEBUG"
 KEY=$( (cat "$REPO"/src/*.c "$REPO"/src/*.h "$REPO"/src/*.cpp "$REPO"/src/*.y; echo "$V $FL"; cat "$0") | sha256sum | cut -c1-16)
 OUT="$ROOT/build/lib/$V-$KEY"
 if [ -f "$OUT/.done" ]; then echo "$OUT"; exit 0; fi
